@@ -14,6 +14,10 @@ LEAN = dict(
         "get_stored_node",
         "parent_view",
         "get_after_set",
+        "stored_until_deleted",
+        "stored_survives_create",
+        "stored_survives_delete",
+        "stored_survives_reopen",
         "one_per_schema",
         "second_object_refused",
         "aux_or_unknown_refused",
